@@ -24,6 +24,12 @@ def walk(focus, q, t, steps=80, **kw):
 
 PLANS = {}
 
+def mcseq(model, maxseq, p, **kw):
+    d = {"module": "MCSeq", "model": model, "kind": "seq", "constants": {"Model": '"%s"' % model, "MaxSeq": maxseq},
+         "invariants": ["StepsHold", "NoReappear", "RisForgets", "Emit"], "ports": p, "workers": 10}
+    d.update(kw)
+    return d
+
 PLANS["C04"] = {
     "props": ["C04"], "ops": ["draw"],
     "mc": [mc("C04", geoms("GQuick", "GThorough"), ports({"api": 1, "chars": 4}, {"api": 1, "chars": 2, "bytes": 3}),
@@ -43,7 +49,8 @@ PLANS["C05"] = {
 }
 PLANS["C06"] = {
     "props": ["C06"], "ops": ["ind", "lf", "ri", "il", "dl", "decstbm"],
-    "mc": [mc("C06", geoms("GRowsQuick", "GRows"), ports({"api": 1, "chars": 3}, ALLP), disp=True)],
+    "mc": [mcseq("C06seq", {"quick": 3, "thorough": 4}, ports({"api": 1, "chars": 3}, {"api": 1, "chars": 3}), disp=True),
+           mc("C06", geoms("GRowsQuick", "GRows"), ports({"api": 1, "chars": 3}, ALLP), disp=True)],
     "gen": [walk("C06", 160, 4000), walk("C06", 80, 2000, port="chars"), walk("C06", 8, 200, geom="large", steps=60)],
     "rule": "MC: IND/LF/RI, IL/DL with counts {absent,0,..,L+2,9999}, DECSTBM with every (top,bottom) pair, from grids whose every "
             "cell holds a distinct coloured marker (filled and sparse), every region, every cursor row; vectors also replayed with "
@@ -65,7 +72,8 @@ PLANS["C08"] = {
 }
 PLANS["C10"] = {
     "props": ["C10"], "ops": ["display"],
-    "mc": [mc("C10", geoms("GQuick", "GThorough"), ports(API, API), disp=True)],
+    "mc": [mcseq("C13seq", {"quick": 3, "thorough": 4}, ports({"api": 1}, {"api": 1})), mcseq("C16seq", {"quick": 3, "thorough": 3}, ports({"api": 3}, {"api": 1})), mcseq("C06seq", {"quick": 3, "thorough": 3}, ports({"api": 2}, {"api": 1})),
+           mc("C10", geoms("GQuick", "GThorough"), ports(API, API), disp=True)],
     "gen": [gen("paired", 120, 3000, steps=60), gen("paired", 60, 1500, steps=60, focus="C10"), walk("C10", 80, 2000)],
     "rule": "MC: Render against a second, column-indexed definition on grids with wide pairs, orphaned placeholders, combining "
             "sequences, wide characters in the last column; TV: paired runs of the same history with display() at no position and "
@@ -80,7 +88,8 @@ PLANS["C12"] = {
 }
 PLANS["C13"] = {
     "props": ["C13"], "ops": ["ich", "dch"],
-    "mc": [mc("C13", geoms("GCols", "GCols"), ports({"api": 1, "chars": 2}, ALLP), disp=True)],
+    "mc": [mcseq("C13seq", {"quick": 3, "thorough": 4}, ports({"api": 1, "chars": 3}, {"api": 1, "chars": 3}), disp=True),
+           mc("C13", geoms("GCols", "GCols"), ports({"api": 1, "chars": 2}, ALLP), disp=True)],
     "gen": [walk("C13", 160, 4000), walk("C13", 80, 2000, port="chars"), walk("C16", 80, 2000)],
     "rule": "MC: ICH/DCH counts {absent,0,..,C+2,9999} on rows of width 1..6 with distinct coloured markers (filled and sparse), cursor "
             "incl. pending wrap; TV: random walks mixing ICH/DCH/IRM-draw/EL and grow-resizes (a discarded cell that reappears is a "
@@ -88,21 +97,24 @@ PLANS["C13"] = {
 }
 PLANS["C14"] = {
     "props": ["C14"], "ops": ["decsc", "decrc"],
-    "mc": [mc("C14", geoms("GSmall", "GSmall"), ports({"api": 1, "chars": 2}, ALLP))],
+    "mc": [mcseq("C14seq", {"quick": 3, "thorough": 4}, ports({"api": 1, "chars": 3}, {"api": 1, "chars": 3})),
+           mc("C14", geoms("GSmall", "GSmall"), ports({"api": 1, "chars": 2}, ALLP))],
     "gen": [walk("C14", 160, 4000), walk("C14", 80, 2000, port="chars")],
     "rule": "MC: DECSC/DECRC after every history a;b;c with a,b,c from {save, restore, move+SGR, draw at the edge, SO+designate, "
             "DECOM/DECAWM/DECTCEM changes, region, shrink}; stack LIFO, clamping, mode re-enabling",
 }
 PLANS["C15"] = {
     "props": ["C15"], "ops": ["ris"],
-    "mc": [mc("C15", geoms("GSmall", "GSmall"), ports(ALLP, ALLP), disp=True)],
+    "mc": [mcseq("C15seq", {"quick": 3, "thorough": 4}, ports({"api": 1, "chars": 2}, {"api": 1, "chars": 2}), disp=True),
+           mc("C15", geoms("GSmall", "GSmall"), ports(ALLP, ALLP), disp=True)],
     "gen": [walk("C15", 200, 5000, steps=60), walk("C15", 100, 2500, port="chars", steps=60)],
     "rule": "MC: RIS from states carrying rendition, region, modes, titles, charsets, tab edits, hidden-state-leaving edits, DECCOLM; "
             "TV: random histories h.RIS.t validated stepwise",
 }
 PLANS["C16"] = {
     "props": ["C16"], "ops": ["resize"],
-    "mc": [mc("C16", geoms("GRowsQuick", "GRows"), ports(API, API), disp=True)],
+    "mc": [mcseq("C16seq", {"quick": 3, "thorough": 3}, ports({"api": 2}, {"api": 1}), disp=True), mcseq("C13seq", {"quick": 3, "thorough": 4}, ports({"api": 2}, {"api": 1})),
+           mc("C16", geoms("GRowsQuick", "GRows"), ports(API, API), disp=True)],
     "gen": [walk("C16", 200, 5000), walk("C13", 60, 1500)],
     "rule": "MC: resize to every target 1..L+2 x 1..C+2 (and absent) from filled/sparse marker grids with region, DECOM, pending-wrap "
             "cursor; TV: random walks with resize sequences (shrink-then-grow), DECCOLM round trips",
@@ -126,7 +138,8 @@ PLANS["C20"] = {
 LIGHT = {"api": 3}
 PLANS["C17"] = {
     "props": ["C17"], "ops": [],
-    "mc": [mc("C04", geoms("GTiny", "GQuick"), ports({"api": 1}, {"api": 1, "chars": 3})),
+    "mc": [mcseq("C13seq", {"quick": 3, "thorough": 3}, ports({"api": 2}, {"api": 1})), mcseq("C15seq", {"quick": 3, "thorough": 3}, ports({"api": 1}, {"api": 1})),
+           mc("C04", geoms("GTiny", "GQuick"), ports({"api": 1}, {"api": 1, "chars": 3})),
            mc("C06", geoms("GRowsQuick", "GRows"), ports({"api": 2}, {"api": 1})),
            mc("C07", geoms("GRowsQuick", "GRows"), ports({"api": 2}, {"api": 1})),
            mc("C13", geoms("GCols", "GCols"), ports({"api": 1}, {"api": 1})),
@@ -156,7 +169,8 @@ PLANS["C09"] = {
 }
 PLANS["C01"] = {
     "props": ["C01"], "ops": [],
-    "mc": [mc("C05", geoms("GTiny", "GQuick"), ports({"api": 3, "chars": 3}, {"api": 1, "chars": 1})),
+    "mc": [mcseq("C13seq", {"quick": 3, "thorough": 4}, ports({"api": 2}, {"api": 1}), disp=True), mcseq("C16seq", {"quick": 3, "thorough": 3}, ports({"api": 3}, {"api": 1}), disp=True), mcseq("C14seq", {"quick": 3, "thorough": 3}, ports({"api": 2}, {"api": 1})),
+           mc("C05", geoms("GTiny", "GQuick"), ports({"api": 3, "chars": 3}, {"api": 1, "chars": 1})),
            mc("C04", geoms("GTiny", "GQuick"), ports({"api": 3, "chars": 7}, {"api": 1, "chars": 2}), disp=True),
            mc("C06", geoms("GRowsQuick", "GRows"), ports({"api": 5, "chars": 7}, {"api": 1, "chars": 2}), disp=True),
            mc("C07", geoms("GRowsQuick", "GRows"), ports({"api": 3, "chars": 5}, {"api": 1, "chars": 2})),
